@@ -47,7 +47,16 @@ def build(tier, seed):
             return c
         mk2.__name__ = mk.__name__
         return mk2
-    tasks = [a_task(PROP, _w(graphsc.add_to_graph)), a_task(PROP, _w(graphsc.register)),
+    def _get_deps():
+        from bounded import c13
+        from contracts import deps
+        c = deps.get_deps(PROP)
+        c.search_fn = c13.search
+        return c
+    _get_deps.__name__ = "get_deps"
+    tasks = [a_task(PROP, _get_deps),
+             Task(f"{PROP}.S.deplist", PROP, "Project.correlate deplist", lambda: __import__("contracts.deps", fromlist=["x"]).deplist_obligations(PROP, lambda: __import__("bounded.c13", fromlist=["x"]).search())),
+             a_task(PROP, _w(graphsc.add_to_graph)), a_task(PROP, _w(graphsc.register)),
              Task(f"{PROP}.S.add_node", PROP, "add_node methods", _replay(graphsc.add_node_obligations)),
              Task(f"{PROP}.S.adjacency", PROP, "node constructors", _replay(graphsc.adjacency_obligations)), bounded_task()]
     meta = {
@@ -59,7 +68,8 @@ def build(tier, seed):
             "edge / adjacency obligations on add_node and the node constructors are syntactic (each edge site is guarded by the insertion of its far endpoint into the hop set; "
             "each adjacency insertion is paired with its inverse in the same block)",
         ],
-        "functions_under_contract": fn_meta([("ford.graphs", "FortranGraph.add_to_graph", None), ("ford.graphs", "GraphManager.register", None)]) +
+        "functions_under_contract": fn_meta([("ford.graphs", "FortranGraph.add_to_graph", None), ("ford.graphs", "GraphManager.register", None),
+                                             ("ford.fortran_project", "Project.correlate.get_deps", "nested function; the lists it feeds (deplist) are the edges of the file graphs")]) +
         [{"methods": "every add_node in ford/graphs.py (edge sites), every *Node.__init__ (adjacency registration)"}],
         "unverified_surroundings": ["get_call_nodes (recursion over visited/result sets)", "add_nodes / _add_nested_nodes recursion depth", "graphviz, DOT text, SVG", "that obj.uses / obj.calls are right (C06-C08)"],
         "explanation": "add_to_graph extends the drawn set exactly when the node limit allows and otherwise leaves it untouched and records the cut; register honours meta.graph; every "
